@@ -438,6 +438,40 @@ std::string Printer::PrinterImpl::printReset(const ResetPtr &reset, IdList &idLi
     return repr;
 }
 
+/**
+ * @brief Escape the characters that cannot appear as such in an XML attribute value.
+ *
+ * @param value The attribute value to escape (e.g., a URL such as "model.cellml?a=1&b=2").
+ *
+ * @return The escaped attribute value.
+ */
+std::string escapeAttributeValue(const std::string &value)
+{
+    std::string res;
+
+    for (const auto &c : value) {
+        switch (c) {
+        case '&':
+            res += "&amp;";
+            break;
+        case '<':
+            res += "&lt;";
+            break;
+        case '>':
+            res += "&gt;";
+            break;
+        case '"':
+            res += "&quot;";
+            break;
+        default:
+            res += c;
+            break;
+        }
+    }
+
+    return res;
+}
+
 std::string Printer::PrinterImpl::printImports(const ModelPtr &model, IdList &idList, bool autoIds)
 {
     std::string repr;
@@ -458,7 +492,7 @@ std::string Printer::PrinterImpl::printImports(const ModelPtr &model, IdList &id
         }
     }
     for (auto &importSource : collatedImportSources) {
-        repr += "<import xmlns:xlink=\"http://www.w3.org/1999/xlink\" xlink:href=\"" + importSource->url() + "\"";
+        repr += "<import xmlns:xlink=\"http://www.w3.org/1999/xlink\" xlink:href=\"" + escapeAttributeValue(importSource->url()) + "\"";
         if (!importSource->id().empty()) {
             repr += " id=\"" + importSource->id() + "\"";
         } else if (autoIds) {
